@@ -256,7 +256,10 @@ MANIFEST = {
              "restricted to the accepted ones is idempotent; the merge is a function of the op multiset. Tied to /repo by real engine ticks over "
              "generated multi-instance graphs and data-driven rewrite programs: model vs implementation on order/decisions/blockers/merged ops, and an "
              "implementation-side oracle (post-state = pre-state + accepted effects via the real op application, patch replays, identical commit under "
-             "shuffled/duplicated enqueues, the legacy scheduler and other worker counts, batches above the 1024 threshold)."),
+             "shuffled/duplicated enqueues, the legacy scheduler and other worker counts, batches above the 1024 threshold; the post-state also equals "
+             "Patch.apply_ops (the proved C04 model) of the merged ops on the pre-state; the same tick on a long-lived engine that already "
+             "committed other ticks must commit like a fresh engine on the same pre-tick state; a third of the ticks pass descent chains so "
+             "that conflicts cross instances)."),
     "note": ("Trusted: Coq kernel + vm_compute; generator and table->term translation; harness interpreter/reference merge; hooks "
              "verif_hooks::apply_ops_to_state. Modelled rather than verified: scheduler queue/reservation, merge glue of engine_impl.rs. Executors are data "
              "(their output is taken from the real executor); op application, diff, digests, state root and commit hash are exercised by the oracle, "
